@@ -207,12 +207,77 @@ def writer_callback_calls(b):
     return out
 
 
+RESPONSE_WRITER = "io::specs::ResponseWriter"
+
+
+def _writes_answer(prog, fn, depth=0):
+    """the function (or one it calls directly, three levels deep) calls a ResponseWriter method"""
+    for y in prog.with_closures(fn):
+        for x in y.calls():
+            c = callee_of(x)
+            if c and c.get("trait") == RESPONSE_WRITER:
+                return True
+            if depth < 3 and c is not None:
+                t = prog.body_for_callee(c, y)
+                if t is not None and t.target == fn.target and t.id != fn.id and not t.trait_method and _writes_answer(prog, t, depth + 1):
+                    return True
+    return False
+
+
+def answer_events(prog, b):
+    """[(site, kind)] the sites of `b` that write (part of) an answer: a call of the writing callback passed as a parameter, a call of a
+    local function that calls ResponseWriter methods, or a ResponseWriter method itself (kind = the method name)"""
+    out = [(s, "callback") for s in writer_callback_calls(b)]
+    for s in b.calls():
+        c = callee_of(s)
+        if c is None:
+            continue
+        if c.get("trait") == RESPONSE_WRITER:
+            out.append((s, c["decl"].rsplit("::", 1)[-1]))
+            continue
+        t = prog.body_for_callee(c, b)
+        if t is not None and t.target == b.target and t.id != b.id and not t.trait_method and _writes_answer(prog, t):
+            out.append((s, "helper:" + t.path))
+    return out
+
+
+def _once_on_every_path(r, b, anchor, events):
+    """no path passes two answer events (a status followed by its witness is one answer) and no normal return passes none"""
+    def pair_ok(k1, k2):
+        return k1 == "write_acceptance_status" and k2 == "write_single_extension"
+
+    multi = None
+    for w1, k1 in events:
+        for w2, k2 in events:
+            if w1 is w2:
+                if any(w1.bb in blks for _h, blks in b.loops()):
+                    multi = w1
+                continue
+            after = w1.bb != w2.bb and b.reaches(w1.bb, w2.bb)  # a block has one terminator: two calls are never in one block
+            if after and not pair_ok(k1, k2):
+                multi = w2
+    r.check(multi is None, anchor, "write-twice", "no path writes an answer twice", "a path writes an answer more than once", (multi or events[0][0]).loc())
+    wblocks = {w.bb for w, _ in events}
+    ret_wo = False
+    seen = set()
+    st = [0]
+    while st:
+        x = st.pop()
+        if x in seen or x in wblocks:
+            continue
+        seen.add(x)
+        if b.blocks[x]["term"]["k"] == "return":
+            ret_wo = True
+        st.extend(b.succ[x])
+    return ret_wo
+
+
 def rule_answer_after_solver(ctx):
     prog = ctx.prog
     r = ctx.rule(
         "answer-once-after-solver",
-        "in each dispatch function of the solve command every normally returning path calls the writing callback exactly once, and "
-        "only after the solver's method returned",
+        "in each dispatch function of the solve command every normally returning path writes the answer exactly once (through the writing "
+        "callback it was given, a local answer-writing function, or the ResponseWriter itself), and only after the solver's method returned",
     )
     n = 0
     for t in prog.bin_targets():
@@ -220,10 +285,11 @@ def rule_answer_after_solver(ctx):
         r.check(len(dfs) == 3, t, "dispatch-functions=%d" % len(dfs), "3 dispatch functions (SE, DC, DS)", "%d dispatch functions found" % len(dfs))
         for b in dfs:
             n += 1
-            ws = writer_callback_calls(b)
+            events = answer_events(prog, b)
+            ws = [w for w, _ in events]
             solver_calls = [s for s in b.calls() if (callee_of(s) or {}).get("trait") in SOLVER_TRAITS]
             anchor = "%s|%s" % (t, b.path)
-            if not r.require_anchor(ws, "writing callback call in " + b.path):
+            if not r.require_anchor(ws, "answer-writing call in " + b.path):
                 continue
             for w in ws:
                 dom = [s for s in solver_calls if b.dominates(s, w)]
@@ -232,23 +298,16 @@ def rule_answer_after_solver(ctx):
                     blk = {s.bb for s in solver_calls}
                     if w.bb not in blk and 0 not in blk and w.bb != 0 and not b.reaches(0, w.bb, avoid=blk):
                         dom = [s for s in solver_calls if b.reaches(s.bb, w.bb)]
-                r.check(bool(dom), anchor, "write-before-solve", "answer written after %s returned" % (strip_generics(callee_name(callee_of(dom[0]))) if dom else "?"), "the writing callback is called before any solver method returned", w.loc())
-            # exactly once: no path from one write to another, and no return without a write
-            multi = any(b.reaches(w1.bb, w2.bb) for w1 in ws for w2 in ws)
-            r.check(not multi, anchor, "write-twice", "no path calls the writing callback twice", "a path calls the writing callback more than once", ws[0].loc())
-            wblocks = {w.bb for w in ws}
-            ret_wo = False
-            seen = set()
-            st = [0]
-            while st:
-                x = st.pop()
-                if x in seen or x in wblocks:
-                    continue
-                seen.add(x)
-                if b.blocks[x]["term"]["k"] == "return":
-                    ret_wo = True
-                st.extend(b.succ[x])
+                r.check(bool(dom), anchor, "write-before-solve", "answer written after %s returned" % (strip_generics(callee_name(callee_of(dom[0]))) if dom else "?"), "the answer is written before any solver method returned", w.loc())
+            ret_wo = _once_on_every_path(r, b, anchor, events)
             r.check(not ret_wo, anchor, "return-without-write", "every normal return passes through a write", "a path returns normally without writing an answer", b.loc())
+            # the local answer-writing functions write on every path as well (an error return of a write is not a normal return of the answer)
+            for w, k in events:
+                if k.startswith("helper:"):
+                    h = prog.body_for_callee(callee_of(w), b)
+                    hev = answer_events(prog, h)
+                    if hev:
+                        _once_on_every_path(r, h, "%s|%s" % (t, h.path), hev)
     return n
 
 
@@ -602,6 +661,55 @@ ENCODER_ORACLE = {
 }
 
 
+def _local_enum(prog, b, ty):
+    a = prog.adts_by_target[b.target].get(ty) or prog.adt(ty)
+    if a is None or not a.get("variants") or ty.startswith(("core::", "std::", "alloc::")):
+        return None
+    return a
+
+
+def _encoder_groups(prog, b, bb, idx, depth=0):
+    """({'STG' | 'SE-PR' | 'other'}, encoding name tested) for the block: from the tests on the semantics and the problem name that guard it,
+    directly or through a local enum whose variants were chosen under such tests (a two-stage table)"""
+    from .satlayer import str_test_of, place_ty
+
+    sems = None
+    enc = None
+    sepr = False
+    via = None
+    for c in conditions(b, bb):
+        ty = place_ty(b, c.place) if c.is_discr else None
+        if c.is_discr and ty == "aa::problem::Semantics":
+            vs = {idx[v] for v in c.values}
+            if c.negated:
+                vs = set(idx.values()) - vs
+            sems = vs if sems is None else sems & vs
+        elif c.is_discr and ty and depth == 0 and _local_enum(prog, b, ty) is not None:
+            vidx = {str(v["idx"]): v["name"] for v in _local_enum(prog, b, ty)["variants"]}
+            if not all(v in vidx for v in c.values):
+                continue
+            vs = {vidx[v] for v in c.values}
+            if c.negated:
+                vs = set(vidx.values()) - vs
+            g = set()
+            for o in origins(b, c.place, transparent=()):
+                if o.kind == "agg" and o.data.get("variant") in vs:
+                    g |= _encoder_groups(prog, b, o.site.bb, idx, depth + 1)[0]
+            via = g if via is None else via & g
+        t2 = str_test_of(b, c)
+        if t2 and t2[0] == "eq" and t2[2] and t2[1] in ("aux_var", "exp", "hybrid"):
+            enc = t2[1]
+        if t2 and t2[0] == "eq" and t2[2] and t2[1] == "SE-PR":
+            sepr = True
+    if via is not None:
+        return via, enc
+    if sems == {"STG"}:
+        return {"STG"}, enc
+    if sepr:
+        return {"SE-PR"}, enc
+    return {"other"}, enc
+
+
 def rule_encoder_selection(ctx):
     """the encoder handed to each solver captures the base semantics the solver needs"""
     prog = ctx.prog
@@ -644,28 +752,9 @@ def rule_encoder_selection(ctx):
             mbox = re.match(r"^alloc::boxed::Box<(.+)>$", ctor)
             if mbox:
                 ctor = mbox.group(1)
-            conds = conditions(b, s.bb)
-            sems = None
-            enc = None
-            sepr = False
-            for c in conds:
-                if c.is_discr and b.local_ty(c.place["l"]) == "aa::problem::Semantics":
-                    vs = {idx[v] for v in c.values}
-                    if c.negated:
-                        vs = set(idx.values()) - vs
-                    sems = vs if sems is None else sems & vs
-                t2 = str_test_of(b, c)
-                if t2 and t2[0] == "eq" and t2[2] and t2[1] in ("aux_var", "exp", "hybrid"):
-                    enc = t2[1]
-                if t2 and t2[0] == "eq" and t2[2] and t2[1] == "SE-PR":
-                    sepr = True
-            if sems == {"STG"}:
-                grp = "STG"
-            elif sepr:
-                grp = "SE-PR"
-            else:
-                grp = "other"
-            got.setdefault((grp, enc), set()).add(ctor)
+            grps, enc = _encoder_groups(prog, b, s.bb, idx)
+            for grp in grps:
+                got.setdefault((grp, enc), set()).add(ctor)
         for key, want in sorted(ENCODER_ORACLE.items()):
             g = got.get(key, set())
             r.check(g == {want}, "%s|%s|%s/%s" % (t, b.path, key[0], key[1]), "got=%s" % sorted(g), "%s with --encoding %s -> %s" % (key[0], key[1], want.rsplit("::", 1)[-1]), "%s with --encoding %s builds %s instead of %s" % (key[0], key[1], sorted(g), want), b.loc())
@@ -752,7 +841,7 @@ def rule_stdout_writers(ctx):
                     n += 1
                     # logger sink or the answer handle
                     to_logger = any(x.kind == "call" and callee_matches(x.info[0], r"^fern::builders::Dispatch::chain$") for x in consumers(b, s.node["dst"]["l"]))
-                    rw = any((callee_of(x) or {}).get("trait") == "io::specs::ResponseWriter" for y in prog.with_closures(fn) for x in y.calls())
+                    rw = _writes_answer(prog, fn)
                     r.check(to_logger or rw, "%s|%s" % (t, fn.path), "stdout", "stdout handle used for %s" % ("the logger sink" if to_logger else "ResponseWriter calls"), "stdout is opened in %s for something other than answers or the logger" % fn.path, s.loc())
                 elif callee_matches(c, r"^std::io::stdio::(stderr|_eprint)$"):
                     n += 1
@@ -765,8 +854,72 @@ def rule_stdout_writers(ctx):
                 c = callee_of(s)
                 if c and c.get("trait") == "io::specs::ResponseWriter":
                     fn = prog.enclosing_fn(b)
-                    has_stdout = any(callee_matches(callee_of(x), r"^std::io::stdio::stdout$") for x in fn.calls())
-                    r.check(has_stdout, "%s|%s|%s" % (t, fn.path, c["decl"].rsplit("::", 1)[-1]), "writer-target", "answers go to the stdout handle of %s" % fn.path, loc=s.loc())
+                    key = "%s|%s|%s" % (t, fn.path, c["decl"].rsplit("::", 1)[-1])
+                    v = stdout_handle(prog, b, s.node["args"][1]) if len(s.node["args"]) > 1 else None
+                    if v is None:
+                        has_stdout = any(callee_matches(callee_of(x), r"^std::io::stdio::stdout$") for x in fn.calls())
+                        if has_stdout:
+                            r.ok(key, "answers go to a writer of %s, which opens stdout (the handle itself was not traced)" % fn.path, s.loc())
+                        else:
+                            r.ok(key, "NOT decided: the writer handed to the ResponseWriter could not be traced to its creation", s.loc())
+                    else:
+                        r.check(v, key, "writer-target", "answers go to the process's stdout handle (traced to std::io::stdout())", "an answer is written to something other than the stdout handle", s.loc())
+
+
+def stdout_handle(prog, body, op, depth=0):
+    """True: every origin of the writer operand is std::io::stdout() (through parameters, captured variables and lock()); False: some
+    origin is another object; None: not decided"""
+    from ..tags import _closure_capture_operand
+
+    if depth > 6:
+        return None
+    os_ = origins(body, op)
+    if not os_:
+        return None
+    res = True
+    for o in os_:
+        v = None
+        if o.kind == "call":
+            if callee_matches(o.data, r"^std::io::stdio::stdout$"):
+                v = True
+            elif callee_matches(o.data, r"^std::io::stdio::Stdout::lock$|^std::io::buffered::(bufwriter::BufWriter|linewriter::LineWriter)::<.*>::new$|^std::io::buffered::(bufwriter::BufWriter|linewriter::LineWriter)::new$"):
+                v = stdout_handle(prog, body, o.site.node["args"][0], depth + 1)
+            elif callee_decl(o.data) == "<indirect>":
+                v = None
+            else:
+                v = False
+        elif o.kind == "param":
+            if body.kind == "closure":
+                v = None
+            else:
+                cs = prog.callers_of(body)
+                k = o.data - 1
+                if not cs:
+                    v = None
+                else:
+                    v = True
+                    for c in cs:
+                        if k >= len(c.node["args"]):
+                            v = None
+                            break
+                        x = stdout_handle(prog, c.body, c.node["args"][k], depth + 1)
+                        if x is False:
+                            v = False
+                            break
+                        if x is None:
+                            v = None
+        elif o.kind == "upvar":
+            par, cap = _closure_capture_operand(prog, body, o.data)
+            v = stdout_handle(prog, par, cap, depth + 1) if cap is not None else None
+        elif o.kind in ("const", "agg"):
+            v = False
+        else:
+            v = None
+        if v is False:
+            return False
+        if v is None:
+            res = None
+    return res
 
 
 def _str_consts_in(body):
@@ -832,13 +985,31 @@ def rule_wrapper_flags(ctx):
     subs, longs, possible = clap_definitions(prog, t)
     # literals that flow into the returned argument vector (comparisons against the real arguments do not)
     lits = set()
-    for b in tr:
-        if "OsString" not in b.ret_ty:
-            continue
-        _, _, consts = data_deps(b, {"l": 0, "p": []})
+    seen = set()
+
+    def returned_literals(b):
+        """string constants the return value of `b` data-depends on, through the wrapper's own functions (their results and what is handed to them)"""
+        if b.id in seen:
+            return
+        seen.add(b.id)
+        _, calls, consts = data_deps(b, {"l": 0, "p": []})
         for k in consts:
             if "str" in k:
                 lits.add(k["str"])
+        for cs in calls:
+            c = callee_of(cs)
+            tgt = prog.body_for_callee(c, b) if c is not None else None
+            if tgt is not None and tgt.target == t and tgt.file in main_files:
+                returned_literals(tgt)
+            for fa in (c or {}).get("fn_args") or []:
+                cb = prog.by_target[t].get(fa) if isinstance(fa, str) else None
+                if cb is not None and cb.file in main_files:
+                    returned_literals(cb)
+
+    for b in tr:
+        if "OsString" not in b.ret_ty:
+            continue
+        returned_literals(b)
     flat = set()
     for l in lits:
         flat |= set(l.split("\x1f"))
